@@ -46,6 +46,11 @@ def generate_ops(rng, cfg, spec, tier) -> list[dict]:
             # Model.load(path, engine=...), on the simulated disk
             op["via"] = "save"
             op["engine"] = "zarr" if op["codec"] == "zarr" else ("h5netcdf" if (spec.complex_input or spec.hilbert) else rng.choice(["netcdf4", "h5netcdf"]))
+        if op["codec"] == "zarr" and rng.random() < 0.25:
+            # the first attempt to rebuild from the (dask-backed) zarr tree fails in a drawn task of a drawn scheduler
+            # call of deserialize(); the attempt is repeated from the same stored state
+            op["load_fault"] = {"call": rng.choice([1, 1, 2, 3, 5, 8]), "at": rng.choice([1, 1, 2]),
+                                "exc": rng.choice(["InjectedFault", "MemoryError", "OSError"])}
         if not sd:
             dataless[tgt] = True
         return op
@@ -257,6 +262,21 @@ def execute(cfg: dict, *, stop_at_first=True, trace=False) -> RunResult:
                     violate("R0", f"put:{out.exc_type}", f"writing the serialised {tgt} through codec {op['codec']} raised {out.exc_type}: {out.exc_msg[:200]}", op)
                 else:
                     rebuild = (lambda: type(obj).load(path, engine=op["engine"])) if via_save else (lambda: type(obj).deserialize(store_.get()))
+                    lf = op.get("load_fault")
+                    if lf:
+                        sim.cfg.permanent_at, sim.cfg.permanent_exc, sim.cfg.permanent_call = int(lf["at"]), lf["exc"], int(lf["call"])
+                        sim.cfg.armed_calls = 0
+                        fo = oracle.capture(rebuild)
+                        sim.cfg.permanent_at = None
+                        sim.cfg.armed_calls = 0
+                        if not fo.ok and fo.exc_type == "SimHarnessError":
+                            raise sched.SimHarnessError(fo.exc_msg)
+                        if not fo.ok and fo.exc_type == lf["exc"] and "injected" in fo.exc_msg:
+                            counts["task_faults"] = counts.get("task_faults", 0) + 1
+                            counts["load_faults"] = counts.get("load_faults", 0) + 1
+                            cov["probes"].add("rebuild interrupted by a task failure, then repeated")
+                        elif not fo.ok:
+                            violate("R0", f"get:{fo.exc_type}", f"rebuilding {tgt} from the {op['codec']} store under an injected {lf['exc']} raised {fo.exc_type}: {fo.exc_msg[:200]}", op)
                     out = oracle.capture(rebuild)
                     if out.ok and op.get("second_rebuild"):
                         # the stored state is read a second time (two loads of one file; two rebuilds from one
